@@ -118,6 +118,9 @@ class Ctx:
         if self.variant:
             key = "%s@cfg-%s" % (key, self.variant)
         st = "inc" if inc else ("ok" if ok else "viol")
+        if st == "viol" and ("<opaque ret:" in detail or "<opaque havoc:" in detail or "?ret:" in detail or "?havoc:" in detail):
+            # the differing value is the result of a call the library model does not cover: undecided, not wrong
+            st = "inc"
         o = Ob(rule, key, fn, site, st, detail, d7, nontrivial, sample)
         self.obs.append(o)
         return o
@@ -226,18 +229,13 @@ def main(argv):
                "instance floor missed: the analysis of this tree did not complete (%s); the anchored constructs "
                "could not be analysed, so the property is not established" % fatal.splitlines()[0][:300])
 
-    # an obligation (rule | function | construct key) none of whose instances could be decided is an
-    # anchor that can no longer be analysed: fail closed, like an instance floor.  Single undecided
-    # paths of an obligation that is otherwise decided stay INCONCLUSIVE (reported, exit code unchanged).
+    # obligations none of whose instances could be decided (an idiom outside the analysed fragment
+    # reached the obligated value) are listed in the evidence; they do not fail the check by
+    # themselves — the instance floors on counted anchors do (DESIGN 0.4)
     by_ident = {}
     for o in ctx.obs:
         by_ident.setdefault(o.ident(), []).append(o)
-    for ident, os_ in sorted(by_ident.items()):
-        if all(o.status == "inc" for o in os_) and os_[0].rule != "FLOOR":
-            o = os_[0]
-            ctx.ob("FLOOR", "decided:%s:%s" % (o.rule, o.key), o.fn, o.site, False,
-                   "instance floor missed: no instance of obligation [%s] %s could be decided on this tree (%s) — the construct it is "
-                   "anchored in is outside the analysed fragment, so the property is not established" % (o.rule, o.key, o.detail[:200]))
+    ctx.extra["undecided_obligations"] = sorted(i for i, os_ in by_ident.items() if all(o.status == "inc" for o in os_))
 
     known = [k for k in load_known() if k.get("property") == pid and k.get("status") == "open"]
     viol = [o for o in ctx.obs if o.status == "viol"]
